@@ -176,7 +176,25 @@ def emit(rows, prefixes, deviations):
     return "\n".join(out) + "\n"
 
 
+def selftest():
+    """the translator's own arithmetic on a miniature input (fail-closed)"""
+    assert expr("231*0.0254^3/4") == F(231) * F(254, 10000) ** 3 / 4
+    assert expr("1e-21/299792458") == F(1, 10 ** 21) / 299792458
+    assert expr("-2.5e1") == F(-25) and expr("10^-3") == F(1, 1000)
+    assert sig_digits("6.67430e-11") == (6, -16) and sig_digits("10973731.568157") == (14, -6)
+    assert sig_digits("-2.00231930436092") == (15, -14) and sig_digits("1.00000000000") == (12, -11)
+    assert dims("L-1/2 M1/2 T-1") == {"[length]": F(-1, 2), "[mass]": F(1, 2), "[time]": F(-1)} and dims("1") == {}
+    assert unescape("\\u03a9") == "\u03a9"
+    for bad in ("1+2", "2**3", "*2", "1/", "a"):
+        try:
+            expr(bad)
+        except (StdError, ZeroDivisionError):
+            continue
+        raise StdError(f"selftest: {bad!r} accepted")
+
+
 def generate(ck=None):
+    selftest()
     rows, prefixes = load()
     names = {r["name"] for r in rows}
     dev = known_deviation_rows()
